@@ -47,7 +47,11 @@ def cases(draw, op="read", invalid=False, many=False, size_bias=None):
                 out.append(bad if bad is not None else r)
             else:
                 out.append(r)
-        if draw(st.integers(0, 3)) == 0:
+        if draw(st.integers(0, 5)) == 0:
+            # the controller refuses the n-th tag service it receives (may be one fragment of a fragmented transfer)
+            status = draw(st.sampled_from([0x02, 0x04, 0x05, 0x10, 0x20, 0xFF]))
+            forced.append({"when": {"nth": draw(st.one_of(st.integers(0, 4), st.integers(0, 16)))}, "status": status, "ext": []})
+        elif draw(st.integers(0, 3)) == 0:
             t = draw(st.sampled_from(pd["tags"]))
             status = draw(st.sampled_from([0x04, 0x05, 0x08, 0x0F, 0x10, 0x13, 0x20, 0x26, 0x77, 0xFF]))
             ext = draw(st.sampled_from([[], [0x2105], [0x2107], [0x0000, 0x0001]]))
